@@ -53,7 +53,7 @@ pub fn judge_input(ctx: &mut Ctx, text: &str, sp: &Sp, cfg: &Cfg, gen_name: &str
 pub fn config_pool() -> Vec<Cfg> {
     let mut v = vec![];
     for now in ["2020-06-15T12:00:00+00:00", "1970-01-01T00:00:00+00:00", "9999-12-31T23:59:59+14:00", "0001-01-01T00:00:00-12:00"] {
-        for off in ["+00:00", "-1200", "+14:00", "", "garbage", "+99:99", "日本"] {
+        for off in ["+00:00", "-1200", "+14:00", "", "garbage", "+99:99", "日本", "-00:01", "+00:01", "-23:59", "+2359"] {
             if now.parse::<chrono::DateTime<chrono::Local>>().is_err() {
                 continue;
             }
@@ -222,6 +222,12 @@ pub fn run(ctx: &mut Ctx) {
         "\n<m name='feat-a'>\n</m>",
         "<tl to>x</tl>",
         "<tl to=''>x</tl>\n",
+        // expiry values at and beyond the edges of what a date library can represent
+        "<tl to='9999-12-31 23:59:59'>x</tl>\n<tl to='0000-01-01 00:00:00'>y</tl>\n<tl to='0001-01-01 00:00:00'>z</tl>",
+        "<tl to='+262142-12-31 23:59:59'>x</tl>\n<tl to='-262143-01-01 00:00:00'>y</tl>",
+        "<tl to='262142-12-31 23:59:59'>x</tl>\n<tl to='+262143-01-01 00:00:00'>y</tl>\n<tl to='-262144-12-31 23:59:59'>z</tl>",
+        "<tl to='+10000-01-01 00:00:00'>x</tl>\n<tl to='99999-12-31 23:59:60'>y</tl>\n<tl to='-0001-02-29 24:00:00'>z</tl>",
+        "<tl to='2016-12-31 23:59:60'>x</tl>\n<tl to='1970-01-01 00:00:00'>y</tl>\n<tl to='1969-12-31 23:59:59'>z</tl>",
     ];
     for (k, c) in cfgs.iter().enumerate() {
         if k as u64 % n != shard {
